@@ -40,7 +40,9 @@ var (
 func c08Payload(op string, k int) []byte {
 	switch op {
 	case "w10":
-		return []byte(fmt.Sprintf("text-%04d.", k%10000))
+		// ten bytes whose last four repeat a word five bytes back (a match finder that looks at the
+		// last four pending bytes at a Flush / Close finds that word in its index)
+		return []byte(fmt.Sprintf("x%04d-%04d", k%10000, k%10000))
 	case "w0":
 		return []byte{}
 	case "wR":
